@@ -4,4 +4,4 @@ Require Extraction.
 Require Import ExtrOcamlBasic.
 Extraction "c04_model.ml"
   mkInst mkProg mkFacts mkRx mkElem mkCond mkStream
-  stream_selected stream_spec any_bad search prog_prefix accepted_length_cached constant_suffix assertion_free wf find.
+  stream_selected stream_spec any_bad search prog_prefix accepted_length_cached constant_suffix_b assertion_free wf find.
